@@ -1,4 +1,5 @@
 """Recipe and statistics generators for graph-level checks."""
+import collections
 import glob
 import json
 import os
@@ -73,6 +74,35 @@ def model_scopes(model_bytes):
       scope = ''.join(og.tname(g.tensors[x]) + ';' for x in o.outputs if x != -1)
       out.append((key.value if key else None, scope))
   return out
+
+
+def fanout_rules(rng, model_bytes):
+  """Directed: every supported op that reads the most-read runtime tensor of
+  subgraph 0 gets its own exactly-scoped rule with a DIFFERENT static config, so
+  that one tensor needs several quantized representations at once."""
+  m = og.read(model_bytes)
+  g = m.subgraphs[0]
+  readers = collections.defaultdict(list)
+  for oi, o in enumerate(g.operators):
+    for x in set(int(i) for i in o.inputs if i != -1):
+      if not og.is_const(m, g.tensors[x]):
+        readers[x].append(oi)
+  if not readers:
+    return []
+  t = max(readers, key=lambda x: len(readers[x]))
+  ncfg = named_configs()
+  cfgs = ['a8w8', 'a8sw8', 'a16w8']
+  rng.shuffle(cfgs)
+  rules = []
+  for j, oi in enumerate(readers[t]):
+    o = g.operators[oi]
+    key = tfu.TFL_OP_CODE_TO_NAME.get(m.operatorCodes[o.opcodeIndex].builtinCode)
+    if key is None:
+      continue
+    scope = ''.join(og.tname(g.tensors[x]) + ';' for x in o.outputs if x != -1)
+    cname = cfgs[j % len(cfgs)]
+    rules.append(('^' + re.escape(scope) + '$', key.value, ncfg[cname][0], cname))
+  return rules
 
 
 def gen_rules(rng, model_bytes, family=None):
@@ -183,4 +213,8 @@ def own_stats(model_bytes, inputs):
         else:
           stats[name] = {'min': 0.95 * stats[name]['min'] + (1.0 - 0.95) * mn,
                          'max': 0.95 * stats[name]['max'] + (1.0 - 0.95) * mx}
+      try:
+        it.reset_all_variables()   # every sample starts from the initial state (as the library does)
+      except RuntimeError:
+        pass
   return stats
